@@ -151,12 +151,12 @@ def me4_effect_issued(ctx, rep):
     P = _pipe(ctx)
     G = P.G
     ms = P.ev.get("METRIC:effect_issued", [])
-    if not rep.exact(R, "effect_issued sites", len(ms), 1):
+    if not rep.exact(R, "effect_issued sites", len({(s_.body.path, s_.bb) for _k, s_ in ms}), 1):
         return
     k, s = ms[0]
-    M = {k}
+    M = {k_ for k_, _s in ms}  # one site, every context its function is called in
     rep.check(G.every_path_hits(P.recv, P.recv, M), R, "once-per-action", s.where, "effect_issued on every pass", "effect_issued skipped on some pass")
-    rep.check(k not in G.reach_after([k], avoid=P.recv), R, "at-most-once-per-action", s.where, "at most once per pass", "can be counted twice per pass")
+    rep.check(not (M & G.reach_after(list(M), avoid=P.recv)), R, "at-most-once-per-action", s.where, "at most once per pass", "can be counted twice per pass")
     bp = ctx.prog.bp(s.body)
     t = bp.arg_term(s.bb, 1)
     lens = [st for st in subterms(t) if st[0] == "call" and st[2] == "std::vec::Vec::len"]
@@ -325,9 +325,24 @@ def me8_snapshot(ctx, rep):
         rep.check(good, R, "field:%s" % f, ctx.where(b, e.bb) if e is not None else ctx.where(b), "snapshot.%s = load(the counter `%s` that %s() adds to)" % (f, ef[f], f), "snapshot.%s = %s, not the counter of %s()" % (f, (e.ck.split("::")[-1] + "(" + term_str(e.args[0]) + ")") if e is not None else term_str(v), f))
     rep.floor(R, "snapshot event fields", n, 9)
     gm = A.method("StoreImpl", "get_metrics")
-    pp = ctx.paths(gm).paths[0]
-    arg_ok = any(strip_wrap(a) == ("field", ("param", 1), A.f_metrics) for e in pp.calls() for a in e.args)
-    rep.check(arg_ok, R, "get_metrics-snapshots-own-counters", ctx.where(gm), "get_metrics converts the store's own counters", "get_metrics does not read the store's metrics field")
+    rep.note_fn(gm.path)
+    arg_ok = True
+    fresh_ok = True
+    npaths = 0
+    for pp in ctx.paths(gm, inline=True).paths:
+        if pp.end != "return":
+            continue
+        npaths += 1
+        conv = [e for e in pp.calls() if any(strip_wrap(a) == ("field", ("param", 1), A.f_metrics) or any(st == ("field", ("param", 1), A.f_metrics) for st in subterms(a)) for a in e.args)]
+        if not conv:
+            arg_ok = False
+            continue
+        # what is handed back is the conversion made by this very call (no cached snapshot)
+        rt_ = strip_clone(strip_wrap(pp.ret)) if pp.ret is not None else None
+        if not any(rt_ == strip_clone(strip_wrap(e.result)) or (rt_ is not None and any(st == e.result for st in subterms(rt_))) for e in conv):
+            fresh_ok = False
+    rep.check(arg_ok and npaths > 0, R, "get_metrics-snapshots-own-counters", ctx.where(gm), "get_metrics converts the store's own counters", "get_metrics does not read the store's metrics field on every path")
+    rep.check(fresh_ok and npaths > 0, R, "get_metrics-returns-a-fresh-snapshot", ctx.where(gm), "every path of get_metrics returns the snapshot it has just taken", "get_metrics can return something else than the snapshot just taken (a cached one): counters that moved since then are not reported")
 
 
 def me9_one_metrics_object(ctx, rep):
